@@ -359,7 +359,8 @@ class QCow2Snapshot:
 
         # Older versions may not have all the extra data fields
         # Instead of reading them manually, just pad the extra data to fit our struct
-        extra_data = self.qcow2.fh.read(self.header.extra_data_size)
+        # Only read the fields we know about here, anything beyond that is read as unknown extra data below
+        extra_data = self.qcow2.fh.read(min(self.header.extra_data_size, len(c_qcow2.QCowSnapshotExtraData)))
         self.extra = c_qcow2.QCowSnapshotExtraData(extra_data.ljust(len(c_qcow2.QCowSnapshotExtraData), b"\x00"))
 
         unknown_extra_size = self.header.extra_data_size - len(c_qcow2.QCowSnapshotExtraData)
@@ -368,7 +369,8 @@ class QCow2Snapshot:
         self.id_str = self.qcow2.fh.read(self.header.id_str_size).decode()
         self.name = self.qcow2.fh.read(self.header.name_size).decode()
 
-        self.entry_size = self.qcow2.fh.tell() - offset
+        # Snapshot table entries are padded to a multiple of 8 bytes
+        self.entry_size = (self.qcow2.fh.tell() - offset + 7) & ~7
 
     def open(self) -> QCow2:
         disk = copy.copy(self.qcow2)
